@@ -192,10 +192,10 @@ func OptParseWindow(s string) (ns uint64, valid, canonical bool) {
 		var ip uint64
 		ipOver := false
 		for i < len(rest) && rest[i] >= '0' && rest[i] <= '9' {
-			if ip > (optMaxInt64-9)/10 {
+			if d := uint64(rest[i] - '0'); ip > (optMaxInt64-d)/10 {
 				ipOver = true
 			} else {
-				ip = ip*10 + uint64(rest[i]-'0')
+				ip = ip*10 + d
 			}
 			i++
 		}
